@@ -31,12 +31,28 @@ def c03(tier, seed):
         bounds="default + 3 other locales; every `inherits` map over them (125, incl. cycles, self reference, explicit inheritance from the default); presence patterns defined/null/absent for a string, an interpolation, a number, a range and a subkey group with nested group (quick: one pattern per map, thorough: all 27 per map).")
 
 
+RANGE_TYPES = ["i8", "i16", "i32", "i64", "u8", "u16", "u32", "u64", "f32", "f64"]
+
+
 def c04(tier, seed):
-    return gcheck.run_property(
+    import kani_run, kcheck, time
+    ints = [t for t in RANGE_TYPES if t[0] != "f"]
+    dm = ["u8", "i64", "f32"] if tier == "quick" else RANGE_TYPES
+    harnesses = ["do_match_" + t for t in dm] + ["end_bound_" + t for t in ints] + ["from_" + t for t in ints] + ["witness_do_match_reaches_assert"]
+    krun = kani_run.KaniRun("ranges", harnesses, jobs=12, timeout_s=1500 if tier == "quick" else 3600)
+    rc_g = gcheck.run_property(
         "C04", tier, seed, suites.c04_cases(tier, seed), "reference",
         functions_encoded=["generated `match count {..}` (integers) and `if` chains (floats) of both back-ends",
                            "parse-time branch selection seen through foreign keys with a literal count"],
         bounds="all 10 numeric types + default i32; <=4 branches + fallback, <=3 alternatives per branch, bounds from type extremes and small values; counts: every value of the type (bit-vector / IEEE float incl. NaN, inf); both syntaxes.")
+    rc_k, cov = kcheck.finish(
+        "C04", krun, ["witness_do_match_reaches_assert"],
+        bounds="Range::<T>::do_match: every Range value of shape Exact | Bounds{start: Option, end: Included|Excluded|Unbounded} | Fallback | Multiple of <=2 of those, every bound and every count of type T (unwind 3, unwinding assertions on); quick tier: T in {u8, i64, f32}, thorough: all 10 types. range_end_bound / from_i64 / from_u64: every input, 8 integer types.",
+        functions=["leptos_i18n_parser::parse_locales::ranges::Range::<T>::do_match (via verif_do_match)", "RangeNumber::range_end_bound", "RangeNumber::from_i64 / from_u64 / from_f64"],
+        assumptions=["float bounds and counts are finite: a NaN/inf bound cannot reach code generation and JSON cannot express a NaN/inf count",
+                     "Multiple holds at most 2 alternatives (longer lists outside the claim)"])
+    kcheck.merge_evidence("C04", "kani", cov, len(cov["violations"]))
+    return max(rc_g, rc_k) if 1 not in (rc_g, rc_k) else 1
 
 
 def c05(tier, seed):
